@@ -211,6 +211,7 @@ __version__ = "7.0.0"
 version_info = tuple(int(num) for num in __version__.split('.'))
 
 _timer = getattr(time, 'monotonic', time.time)
+_nowrap_lock = threading.Lock()
 _TOTAL_PHYMEM = None
 _LOWEST_PID = None
 _SENTINEL = object()
@@ -2124,11 +2125,19 @@ def disk_io_counters(perdisk=False, nowrap=True):
     executed first otherwise this function won't find any disk.
     """
     kwargs = dict(perdisk=perdisk) if LINUX else {}
-    rawdict = _psplatform.disk_io_counters(**kwargs)
     if nowrap:
-        # Also done if there are no disks, so that disks which disappear
-        # and later reappear are not mistaken for wrapped counters.
-        rawdict = _wrap_numbers(rawdict, 'psutil.disk_io_counters')
+        # Reading the counters and comparing them with the previous ones
+        # must be atomic: if another thread wraps a newer snapshot in
+        # between, this (older) one looks like a counter which restarted
+        # from zero and the old values are added forever.
+        with _nowrap_lock:
+            rawdict = _psplatform.disk_io_counters(**kwargs)
+            # Also done if there are no disks, so that disks which
+            # disappear and later reappear are not mistaken for wrapped
+            # counters.
+            rawdict = _wrap_numbers(rawdict, 'psutil.disk_io_counters')
+    else:
+        rawdict = _psplatform.disk_io_counters(**kwargs)
     if not rawdict:
         return {} if perdisk else None
     nt = getattr(_psplatform, "sdiskio", _common.sdiskio)
@@ -2177,11 +2186,16 @@ def net_io_counters(pernic=False, nowrap=True):
     "net_io_counters.cache_clear()" can be used to invalidate the
     cache.
     """
-    rawdict = _psplatform.net_io_counters()
     if nowrap:
-        # Also done if there are no NICs, so that NICs which disappear
-        # and later reappear are not mistaken for wrapped counters.
-        rawdict = _wrap_numbers(rawdict, 'psutil.net_io_counters')
+        # See disk_io_counters().
+        with _nowrap_lock:
+            rawdict = _psplatform.net_io_counters()
+            # Also done if there are no NICs, so that NICs which
+            # disappear and later reappear are not mistaken for wrapped
+            # counters.
+            rawdict = _wrap_numbers(rawdict, 'psutil.net_io_counters')
+    else:
+        rawdict = _psplatform.net_io_counters()
     if not rawdict:
         return {} if pernic else None
     if pernic:
